@@ -118,9 +118,70 @@ func gangHistory(c *Ctx, d *coreDrv) {
 			}
 		}
 	}
+	stateOf := func(id string) string {
+		if app := d.s.part.GetApplication(id); app != nil {
+			return app.CurrentState()
+		}
+		return ""
+	}
 	nops := 25 + c.pick(60)
 	for j := 0; j < nops; j++ {
 		g := gapps[c.pick(len(gapps))]
+		// scenario snippets for the situations the properties name explicitly
+		if c.chance(0.12) {
+			switch c.pick(4) {
+			case 0:
+				// node removal while a placeholder replacement is in flight: remove the placeholder's node
+				for _, conf := range s.pendConf {
+					if conf["type"] == "PLACEHOLDER_REPLACED" {
+						if n := s.bound[conf["key"].(string)]; n != "" && s.nodes[n] && len(s.nodes) > 1 {
+							emit(map[string]interface{}{"op": "node", "id": n, "action": "decommission"})
+							delete(s.nodes, n)
+						}
+						break
+					}
+				}
+			case 1:
+				// restart from Completing with a placeholder ask, then the completing timer
+				if stateOf(g.id) == "Completing" {
+					phSeq++
+					key := fmt.Sprintf("p%d", phSeq)
+					g.phKeys = append(g.phKeys, key)
+					g.phRes[key] = resources.NewResourceFromMap(map[string]resources.Quantity{"cpu": resources.Quantity(1 + c.pick(3))})
+					g.tg[key] = "tg-1"
+					submitPh(g, key)
+					if c.chance(0.7) {
+						emit(map[string]interface{}{"op": "state-timeout", "app": g.id})
+					}
+				}
+			case 2:
+				// a running gang application: placeholder timeout releases the unused placeholders, the real allocations
+				// leave, the completing timer fires before the shim has confirmed the placeholder releases
+				if stateOf(g.id) == "Running" {
+					emit(map[string]interface{}{"op": "ph-timeout", "app": g.id})
+					for k, a := range s.asks {
+						if a.app == g.id && !a.ph {
+							emit(map[string]interface{}{"op": "release", "app": g.id, "key": k, "type": "STOPPED_BY_RM"})
+							delete(s.asks, k)
+							delete(s.bound, k)
+						}
+					}
+					emit(map[string]interface{}{"op": "state-timeout", "app": g.id})
+				}
+			default:
+				// release all allocations while asks are outstanding, then the asks one by one
+				emit(map[string]interface{}{"op": "release", "app": g.id, "key": "", "type": "STOPPED_BY_RM"})
+				for k, a := range s.asks {
+					if a.app == g.id {
+						emit(map[string]interface{}{"op": "release", "app": g.id, "key": k, "type": "STOPPED_BY_RM"})
+						delete(s.asks, k)
+						delete(s.bound, k)
+					}
+				}
+			}
+			confirmSome(0.3)
+			continue
+		}
 		p := c.pick(100)
 		switch {
 		case p < 38:
